@@ -197,12 +197,16 @@ Definition obs_grid (s : sobs) : grid elt := g_of_data (s_cols s) (s_rows s) (s_
 
 (** every step: shape invariant; and, where the plain model specifies the step, the same
     acceptance, the same returned values and the same cells *)
+(** a step with an armed Clone / Default fuse that completed is the plain step *)
+Definition eff_op (o : hop) (s : sobs) : hop :=
+  match o with HFuse _ _ o' => if s_ok s then o' else o | _ => o end.
+
 Fixpoint spec_steps (cap : N) (g : grid elt) (ops : list hop) (obs : list sobs) : bool :=
   match ops, obs with
   | [], [] => true
   | o :: ops', s :: obs' =>
       shape_ok s
-      && match g_step cap g o (s_data s) with
+      && match g_step cap g (eff_op o s) (s_data s) with
          | ExpGrid ok g' out =>
              (* under an injected destructor panic the call may end in a (caught) panic and
                 its return values are lost; the array must be the same nevertheless *)
